@@ -52,7 +52,7 @@ func (fx *fnExec) callSiteHooksAfter(callee *ssa.Function, args []Val, res Val, 
 		if !ok {
 			cur = BVI(0, 64)
 		}
-		st.Ghost[g.Name] = BVAdd(cur, dt)
+		st.Ghost[g.Name] = fx.ghostAdd(st, cur, dt)
 	}
 }
 
@@ -128,6 +128,6 @@ func (fx *fnExec) dynCallHooks(name string, args []Val, st *State, pos token.Pos
 		if !ok {
 			cur = BVI(0, 64)
 		}
-		st.Ghost[g.Name] = BVAdd(cur, dt)
+		st.Ghost[g.Name] = fx.ghostAdd(st, cur, dt)
 	}
 }
